@@ -5,6 +5,7 @@ import GitSizer.Driver.Config
 import GitSizer.Driver.Refs
 import GitSizer.Driver.Graph
 import GitSizer.Driver.Output
+import GitSizer.Driver.Meter
 /-! `gsmodel`: reads case lines (engine TAB id TAB input… TAB => TAB observed…) on stdin and
     prints one verdict line per case: id TAB verdict… -/
 open GitSizer.Driver
@@ -19,6 +20,7 @@ def engineOf (name : String) : Option Engine :=
   | "refs" => some refsEngine
   | "graph" => some graphEngine
   | "output" => some outputEngine
+  | "meter" => some meterEngine
   | _ => none
 
 def splitCase (fields : List String) : List String × List String :=
